@@ -1015,7 +1015,9 @@ impl<C: MlsConfig, E: ExternalMlsConfig + Clone> World<C, E> {
             "tree_dump" => {
                 let g = grp!();
                 let t = mls!(g.export_tree().to_bytes());
-                Ok(json!({"tree": hex::encode(t), "tree_hash": hex::encode(&g.context().tree_hash), "suite": u16::from(g.cipher_suite())}))
+                // the member's whole state, for its hash cache (TreeKemPublic::tree_hashes) next to its own node vector
+                let snap = g.verif_snapshot().map(hex::encode).unwrap_or_default();
+                Ok(json!({"tree": hex::encode(t), "tree_hash": hex::encode(&g.context().tree_hash), "suite": u16::from(g.cipher_suite()), "snapshot": snap}))
             }
             "obs_join" => {
                 let gi = self.msg(op["gi"].as_str().unwrap_or(""))?;
